@@ -5,7 +5,7 @@ Table rules over the two built-in maps (every entry, on every run) and shape
 rules over the protection / unknown-character policies."""
 import ast
 import re
-from ..core import (AnalysisError, short, unparse, iter_own, call_name, call_recv, kwarg,
+from ..core import (enclosing_func, AnalysisError, short, unparse, iter_own, call_name, call_recv, kwarg,
                     is_self_attr, atomic_facts, parents, enclosing_stmt)
 from . import c09, c04
 
@@ -68,6 +68,60 @@ def scan(repl):
     if depth != 0:
         ok = False
     return ok, dollars, percent, env, raw
+
+
+def _builtin_table_escape(ctx, repo):
+    tables_ = ('uni2latex',)
+    n = 0
+    for mod in sorted(repo.modules.values(), key=lambda m_: m_.name):
+        if not mod.name.startswith('pylatexenc.latexencode') or mod.name.endswith(('_uni2latexmap', '_uni2latexmap_xml')):
+            continue
+        for imp in [x for x in ast.walk(mod.tree) if isinstance(x, ast.ImportFrom) and x.module
+                    and x.module.endswith(('_uni2latexmap', '_uni2latexmap_xml'))]:
+            scope = enclosing_func(imp) or mod.tree
+            for al in imp.names:
+                if al.name not in tables_:
+                    continue
+                local = al.asname or al.name
+                for use in [x for x in ast.walk(scope) if isinstance(x, ast.Name) and x.id == local
+                            and isinstance(x.ctx, ast.Load)]:
+                    par = getattr(use, '_parent', None)
+                    gp = getattr(par, '_parent', None)
+                    verdict = None
+                    if isinstance(par, ast.Attribute) and isinstance(gp, ast.Call) and gp.func is par:
+                        verdict = par.attr in ('copy', 'get', 'items', 'keys', 'values', '__getitem__', '__contains__')
+                        how = '.%s()' % par.attr
+                    elif isinstance(par, ast.Call) and use in par.args and call_name(par) in (
+                            'dict', '_MappingProxyType', 'MappingProxyType', 'len', 'sorted', 'list', 'iter'):
+                        verdict, how = True, call_name(par) + '(...)'
+                    elif isinstance(par, ast.keyword) and par.arg in ('rule',):
+                        verdict, how = True, 'rule= of a conversion rule (read by the encoder only)'
+                    elif isinstance(par, ast.Subscript) and par.value is use and isinstance(par.ctx, ast.Load):
+                        verdict, how = True, 'subscript read'
+                    elif isinstance(par, (ast.For, ast.comprehension)) or (
+                            isinstance(par, ast.Compare) and use in par.comparators):
+                        verdict, how = True, 'iteration / membership'
+                    elif isinstance(par, ast.Return):
+                        verdict, how = False, 'returned as such'
+                    elif isinstance(par, ast.Assign):
+                        verdict, how = False, 'stored as such in %s' % short(par.targets[0])
+                    elif isinstance(par, ast.Subscript) and isinstance(par.ctx, (ast.Store, ast.Del)):
+                        verdict, how = False, 'written'
+                    else:
+                        verdict, how = None, short(par, 50)
+                    n += 1
+                    where = getattr(scope, 'name', '<module>')
+                    cons = '%s: use of the built-in table %s (%s)' % (where, local, how)
+                    if verdict is None:
+                        ctx.unknown('R13g', mod, use, 'use of the shared table not classified: %s' % how, construct=cons)
+                    else:
+                        ctx.decide('R13g', verdict, mod, enclosing_stmt(use) or use, 'table %s: %s' % (local, how),
+                                   'the built-in rule table %s is %s from %s: whoever receives it can edit the '
+                                   'rules of every encoder in the process (after utf82latex[ord(\'%%\')] = \'%%\' '
+                                   'all encoders emit a live comment character)' % (local, how, where),
+                                   construct=cons)
+    if n < 2:
+        raise AnalysisError('built-in table uses: only %d found' % n)
 
 
 def _abstract_literal(e):
@@ -174,6 +228,12 @@ def run(ctx):
     ctx.rule('R13e', 'the unknown-character arm appends exactly the policy result; printable-ASCII '
                      'pass-through range is 32..127 + \\n\\r\\t; non_ascii_only skips only code '
                      'points below 128', 3)
+    ctx.rule('R13h', 'no call in the encoder package can raise for part of the input alphabet '
+                     '(unicodedata.name(c) without default raises ValueError for unnamed code points)', 1)
+    ctx.rule('R13g', 'the process-wide built-in rule tables are handed out only copied or wrapped '
+                     'read-only (.copy(), dict(), MappingProxyType) or passed to a rule object: never '
+                     'returned, stored or exposed as such (a documented legacy customisation of '
+                     'latexencode.utf82latex would otherwise edit the rules of every encoder)', 2)
     ctx.rule('R13f', 'the module-level helper caches encoders under a key that covers every option '
                      '(a call with non_ascii_only=True must not poison later default calls)', 1)
 
@@ -278,6 +338,25 @@ def run(ctx):
                    'non_ascii_only: %s' % why, construct='_check_do_skip_ascii bound')
     # ------------------------------------------------------------ R13f
     c09._module_state(ctx, repo, 'R13f', lambda name: name.startswith('pylatexenc.latexencode'))
+    # ------------------------------------------------------------ R13g
+    _builtin_table_escape(ctx, repo)
+    # ------------------------------------------------------------ R13h
+    from .. import grules
+    n_fn = 0
+    for mod in repo.modules.values():
+        if not mod.name.startswith('pylatexenc.latexencode') or mod.name.endswith('__main__'):
+            continue
+        for q, f in mod.functions.items():
+            n_fn += 1
+            for x, exc in grules.partial_calls(f):
+                ctx.refuted('R13h', mod, enclosing_stmt(x) or x,
+                            '%s raises %s for every character without a Unicode name (C0/C1 controls, '
+                            'private use, unassigned): with it on the unknown-character path the '
+                            'keep/replace/ignore/unihex policies raise instead of returning ASCII text, '
+                            'and the error is indistinguishable from the fail policy\'s'
+                            % (unparse(x), exc), construct='%s: %s' % (q, unparse(x)))
+    ctx.holds('R13h', repo.mod(ENC), None, 'no partial standard-library call in the %d functions of the '
+              'encoder package' % n_fn, construct='partial-call scan', trivial=True)
     ctx.assume('a strict parse of arbitrary concatenations of replacements and copied input is not '
                'decided; the ten active characters are the ones named in the property')
     return 'other', (
